@@ -179,6 +179,12 @@ func (fc *FnCtx) specIdent(env *Env, name string) Val {
 			return Val{K: VInt, T: mkInt(v), Typ: t}
 		}
 	}
+	if dp := fc.eng.spkgs["decimal"]; dp != nil && dp.Pkg != fc.pkg {
+		// contract vocabulary defined next to package decimal is also used from package context
+		if v, t, ok := fc.eng.lookupConst(dp.Pkg, name); ok {
+			return Val{K: VInt, T: mkInt(v), Typ: t}
+		}
+	}
 	// package-level variable
 	for _, p := range []*types.Package{env.pkg(), fc.pkg} {
 		if obj, ok := p.Scope().Lookup(name).(*types.Var); ok {
